@@ -191,8 +191,13 @@ class Module:
         _assert_module_attr(self, val)
 
         # Checks out! Name `val` and add it to our type-based containers.
+        prior = val.name
         val.name = key
         _add(module=self, val=val)
+        if prior is not None and prior != key and self.namespace.get(prior, None) is val:
+            # `val` was one of our attributes already, under another name, e.g. `m.b = m.a`.
+            # An object has one name: it moves. (Kept under both, it would be exported twice, as two `key`s.)
+            _drop(self, prior)
         return None
 
     def __getattr__(self, key: str) -> Any:
@@ -322,6 +327,20 @@ _banned = [
     "add",
     "get",
 ]
+
+
+def _drop(module: Module, name: str) -> None:
+    """Remove the attribute named `name` from the namespace and the type-based containers of `module`."""
+    module.namespace.pop(name, None)
+    for ctr in (
+        module.ports,
+        module.signals,
+        module.instances,
+        module.instarrays,
+        module.instbundles,
+        module.bundles,
+    ):
+        ctr.pop(name, None)
 
 
 def _add(module: Module, val: ModuleAttr) -> ModuleAttr:
